@@ -216,7 +216,7 @@ def runCItem (eid : Nat) (it : CItem) : M Unit := do
     let e ← getEntry eid
     let l := e.queries.length
     if l == 0 then return
-    setEntry eid { e with locks := some (l, []) }
+    setEntry eid (e.lockFor l)
     for (q, rs, asked) in queryPlan e do
       if !asked then cacheEnqueueUnlock eid .noop
       else registerReq subject s!"query={q}" (.query eid rs)
